@@ -323,3 +323,80 @@ func VH_C11_resolve_step() {
 	p.ReleaseClients()
 	vAssert(vLocksHeld() == 0, "C11.step.after.no-lock-held")
 }
+
+// Join chains: promises joined over one or two hops (built forwards or backwards), each of which may
+// have handed out a pipelined client for the same path before. After the head is fulfilled with a
+// capability every such client reaches THAT capability, asking again gives a working client, and
+// once every promise has released its clients and every handle is released the capability is shut
+// down exactly once - nothing leaks, nothing is released twice.
+func VH_C11_join_chain() {
+	x := &vHook{}
+	cx := NewClient(x)
+	msg, seg := vNewMsg()
+	res, err := NewStruct(seg, ObjectSize{PointerCount: 1})
+	vAssume(err == nil)
+	vAssume(res.SetPtr(0, NewInterface(seg, msg.AddCap(cx)).ToPtr()) == nil)
+	hops := 1 + vConc(int(vNondetU8()), 2) // 1: b joins a; 2: c joins b joins a
+	var p [3]*Promise
+	for i := range p {
+		p[i] = NewPromise(Method{}, &vCaller{})
+	}
+	path := []PipelineOp{{Field: 0}}
+	var cl [3]*Client
+	var has [3]bool
+	for i := 0; i <= hops; i++ {
+		has[i] = vConc(int(vNondetU8()), 2) == 1
+		if has[i] {
+			cl[i] = p[i].Answer().Field(0, nil).Client()
+		}
+	}
+	_ = path
+	if hops == 1 {
+		p[1].Join(p[0].Answer())
+	} else if vConc(int(vNondetU8()), 2) == 1 {
+		// backwards: the tail joins the middle before the middle joins the head
+		p[2].Join(p[1].Answer())
+		p[1].Join(p[0].Answer())
+	} else {
+		p[1].Join(p[0].Answer())
+		p[2].Join(p[1].Answer())
+	}
+	vReach("joined")
+	vAssert(vLocksHeld() == 0, "C11.chain.join.no-lock-held")
+	vNoBlock(true)
+	p[0].Fulfill(res.ToPtr())
+	vReach("fulfilled")
+	vAssert(vLocksHeld() == 0, "C11.chain.fulfill.no-lock-held")
+	for i := 0; i <= hops; i++ {
+		vAssert(vIsClosed(p[i].Answer().Done()), "C11.chain.every-joined-promise-resolved")
+	}
+	// every client handed out earlier now delivers to the capability in the result
+	want := 0
+	for i := 0; i <= hops; i++ {
+		if has[i] {
+			_, rel := cl[i].SendCall(context.Background(), Send{})
+			rel()
+			want++
+			vAssert(x.sends == want, "C11.chain.earlier-client-reaches-the-resolved-capability")
+			vAssert(!cl[i].State().IsPromise && cl[i].IsSame(cx), "C11.chain.earlier-client-resolved-to-the-capability")
+		}
+	}
+	// asking again, on any promise of the chain, is harmless and works
+	again := p[hops].Answer().Field(0, nil).Client()
+	_, rel := again.SendCall(context.Background(), Send{})
+	rel()
+	want++
+	vAssert(x.sends == want, "C11.chain.client-after-resolution-reaches-the-capability")
+	// (clients obtained from an Answer are borrowed references: the promise owns them)
+	for i := 0; i <= hops; i++ {
+		p[i].ReleaseClients()
+		vAssert(vLocksHeld() == 0, "C11.chain.release.no-lock-held")
+	}
+	for i := 0; i <= hops; i++ {
+		vAssert(p[i].clientsRefs == 0, "C11.chain.client-table-references-balanced")
+	}
+	vAssert(x.shutdowns == 0, "C11.chain.capability-alive-while-the-result-holds-it")
+	msg.Reset(nil) // drops the result message's capability table
+	vReach("released")
+	vAssert(x.shutdowns == 1, "C11.chain.capability-shut-down-exactly-once-when-all-released")
+}
